@@ -67,6 +67,8 @@ class World:
         self.script = None
         self.cp_count = 0
         self.log = None
+        self.calls = []            # every step-API call (top level or from inside work_fn): op, ret, before, after
+        self.mark = None           # (view, len(acq_log)) at the latest callback of the running execute_operation
         # created_at / phase_entered_at come from a default_factory bound at import: re-stamp
         orig_start = self.ctl.start_operation
 
@@ -98,12 +100,17 @@ class World:
             if beh == "raise":
                 if self.log is not None:
                     self.log.append([0, k, 0])
+                    self._mark()
                 raise InjectedFault("checkpoint")
             r = False if beh == "false" else bool(orig(ctx))
             if self.log is not None:
                 self.log.append([0, k, int(r)])
+                self._mark()
             return r
         return cond
+
+    def _mark(self):
+        self.mark = (self.view(), len(self.acq_log))
 
     # -- observations ------------------------------------------------------
     def locks(self):
@@ -143,6 +150,12 @@ class World:
 
     # -- step API ----------------------------------------------------------
     def fstep(self, a):
+        before = self.view()
+        ret = self._fstep(a)
+        self.calls.append({"op": a, "ret": ret, "before": before, "after": self.view()})
+        return ret
+
+    def _fstep(self, a):
         c = self.ctl
         k = a[0]
         if k == "start":
@@ -200,6 +213,10 @@ class World:
         log = []
         info = {"op": o, "reqs": list(reqs), "entry": None, "acq_from": len(self.acq_log)}
         self.script, self.cp_count, self.log = sc, 0, log
+        self.mark = (self.view(), len(self.acq_log))
+        events = self.sys.watchdog.events
+        ev_from = len(events)
+        scripted_events = []       # terminations caused by the scripted work function itself
 
         def work_fn():
             log.append([1])
@@ -212,19 +229,25 @@ class World:
                         row += [onum(l.owner), l.hold_count]
                     log.append(row)
                 else:
+                    e0 = len(events)
                     log.append([3] + self.fstep(act[1]))
+                    scripted_events.extend(id(e) for e in events[e0:])
             if sc["raises"]:
                 log.append([5])
+                self._mark()
                 raise InjectedFault("work")
             log.append([4])
+            self._mark()
             return "done"
 
         def validate_fn(result):
             if sc["validate"] == "raise":
                 log.append([7])
+                self._mark()
                 raise InjectedFault("validate")
             ok = sc["validate"] == "true"
             log.append([6, int(ok)])
+            self._mark()
             return ok
         try:
             res = self.sys.execute_operation(oname(o), "agent", work_fn, resources=[rname(r) for r in reqs],
@@ -235,6 +258,11 @@ class World:
         info["success"] = bool(res.success)
         info["log"] = log
         info["acqs"] = self.acq_log[info["acq_from"]:]
+        info["last_view"], last_acq = self.mark
+        info["acqs_after_last_callback"] = self.acq_log[last_acq:]
+        # terminations of THIS operation during the call that its own work script did not ask for
+        info["killed_by_system"] = [e.reason.value for e in events[ev_from:]
+                                    if e.operation_id == oname(o) and id(e) not in scripted_events]
         rows = [[100, int(bool(res.success)), PHASE[res.phase_reached.value]]] + [[105] + e for e in log]
         return rows, info
 
@@ -252,13 +280,15 @@ def run_history(case):
         obs, steps = [], []
         for a in case["ops"]:
             before = w.view()
+            w.calls = []
             if a[0] == "exec":
                 rows, info = w.exec_op(a)
             else:
                 rows, info = [[100] + w.fstep(a)], None
             obs += rows
             obs += w.snapshot()
-            steps.append({"op": a, "ret": rows[0][1:], "before": before, "after": w.view(), "info": info})
+            steps.append({"op": a, "ret": rows[0][1:], "before": before, "after": w.view(), "info": info,
+                          "calls": w.calls})
         return obs, steps
     finally:
         for m, d in zip(mods, saved):
@@ -418,7 +448,7 @@ class C14(Check):
             res_pool = [r for r, _ in res] + ([9] if rng.random() < 0.1 else [])
             w = {"strategy": rng.choice(["priority", "priority", "oldest", "first"])}
             if rng.random() < 0.3:
-                w[rng.choice(["max", "starve", "progress"])] = rng.choice([0, 1, 2, 3])
+                w[rng.choice(["max", "starve", "progress"])] = rng.choice([0, 1, 2, 3, -1])
             ops_pool = [1, 2, 3, 4, 5]
             ops = []
             mode = rng.random()
@@ -481,6 +511,37 @@ class C14(Check):
                     sc1 = {**sc, "work": [["probe"], ["do", act], ["probe"], ["do", ["wd"]]]}
                     ops = [["start", 5, 9, False], ["exec", 1, 3, list(reqs), sc1], ["complete", 5], ["shutdown"]]
                     out.append({"res": res, "w": {"strategy": "priority", "progress": 3}, "ops": ops})
+        # a preempted operation (op1 lost r1 to a higher-priority one) ends in each of the five ways while
+        # somebody else owns the resource: through the step API, after the preemptor committed and a third
+        # operation re-acquired, and from inside the preemptor's work function
+        wmax = {"strategy": "priority", "max": 2}          # only op1 (started before the tick) is overdue
+        pres = [[1, True], [2, False], [3, True]]
+        head = [["start", 1, 0, False], ["acq", 1, 1], ["acq", 1, 3], ["tick", 3]]
+        for end in (["kill", 1], ["abort", 1], ["complete", 1], ["wd"], ["shutdown"]):
+            out.append({"res": pres, "w": wmax, "ops": head + [["start", 2, 5, False], ["acq", 2, 1], ["acq", 2, 1], end,
+                                                              ["acq", 2, 2], ["complete", 2]]})
+            out.append({"res": pres, "w": wmax, "ops": head + [["exec", 3, 5, [1, 2], plain_script(work=[["probe"]])],
+                                                              ["start", 2, 1, False], ["acq", 2, 1], ["acq", 2, 1], end,
+                                                              ["rel", 2, 1], ["shutdown"]]})
+            for _name, sc in FAULTS:
+                sc1 = {**sc, "work": [["probe"], ["do", end], ["probe"]]}
+                out.append({"res": pres, "w": wmax, "ops": head + [["exec", 3, 5, [1, 2, 1], sc1], ["shutdown"]]})
+        # ... and the running operation itself is preempted during its work, then ends (every exit path)
+        for _name, sc in FAULTS:
+            sc1 = {**sc, "work": [["probe"], ["do", ["start", 4, 9, False]], ["do", ["acq", 4, 1]], ["do", ["acq", 4, 1]], ["probe"]]}
+            out.append({"res": pres, "w": dict(NOW), "ops": [["exec", 3, 1, [1, 2], sc1], ["acq", 4, 2], ["shutdown"]]})
+        # watchdog time-outs configured, blocked on the 1st/2nd/3rd request, holder and/or caller overdue
+        # (a negative timeout makes every non-exempt operation overdue at once: it stands for time passing
+        # during a slow acquisition, which the virtual clock cannot do in the middle of a call)
+        for wt in ({"max": -1}, {"starve": -1}, {"max": 2}, {"max": -1, "starve": -1}):
+            for reqs in ([2], [1, 2], [1, 3, 2], [3, 1, 1, 2]):
+                for hold_ex, caller_first in ((False, False), (True, False), (False, True)):
+                    ops = [["start", 5, 0, hold_ex], ["acq", 5, 2], ["tick", 3],
+                           ["exec", 1, 3, list(reqs), plain_script(work=[["probe"]], validate="true")],
+                           ["wd"], ["exec", 2, 3, list(reqs), plain_script(work=[["probe"]])], ["shutdown"]]
+                    if caller_first:
+                        ops = [["start", 6, 0, False], ["acq", 6, 1]] + ops
+                    out.append({"res": pres, "w": {"strategy": "priority", **wt}, "ops": ops})
         return out
 
     # -- implementation ----------------------------------------------------
@@ -506,10 +567,36 @@ class C14(Check):
                     return Violation("C14/owner-not-active", f"step {i} {a}: r{r} is owned by op{ow} (hold {h}) which is not active")
                 if (ow == -1) != (h == 0):
                     return Violation("C14/lock-inconsistent", f"step {i} {a}: r{r} owner {ow} hold_count {h}")
+            # ending an operation changes only locks it owns at that moment — for every step-API call,
+            # also those made from inside a work function
+            for c in st["calls"]:
+                ca, cb, cf = c["op"], c["before"], c["after"]
+                if ca[0] in ("complete", "abort", "kill"):
+                    ended = {ca[1]}
+                elif ca[0] == "wd":
+                    ended = set(c["ret"][0::2])
+                else:
+                    continue
+                for r, (ow, h, _p) in cb["owners"].items():
+                    if ow not in ended and cf["owners"][r][:2] != (ow, h):
+                        return Violation("C14/foreign-lock-changed",
+                                         f"step {i}: {ca} ended {sorted(ended)} but r{r}, owned by "
+                                         f"{'nobody' if ow == -1 else 'op%d' % ow} (hold {h}), became {cf['owners'][r][:2]}")
             k = a[0]
             if k == "exec" and st["info"] is not None:
                 info = st["info"]
                 o = info["op"]
+                # the final complete/abort of execute_operation: same rule, from the latest callback on
+                lv = info["last_view"]
+                got = {r for (oo, r, res) in info["acqs_after_last_callback"] if oo == o and res != 1}
+                for r, (ow, h, _p) in lv["owners"].items():
+                    if ow != o and r not in got and owners[r][:2] != (ow, h):
+                        return Violation("C14/foreign-lock-changed",
+                                         f"step {i}: execute_operation(op{o}) ended; r{r} was owned by "
+                                         f"{'nobody' if ow == -1 else 'op%d' % ow} (hold {h}) at its last callback and is now {owners[r][:2]}")
+                if info["success"] and info["killed_by_system"]:
+                    return Violation("C14/success-after-kill",
+                                     f"step {i}: op{o} was terminated during the call ({info['killed_by_system']}, not by its own work script) but success=True is reported")
                 if owned_by(o) or o in after["active"]:
                     return Violation("C14/leak-after-execute", f"step {i}: after execute_operation(op{o}, {info['reqs']}) it still owns {owned_by(o)} / active={o in after['active']}")
                 log = info["log"]
@@ -521,6 +608,8 @@ class C14(Check):
                     missing = [r for r in info["reqs"] if r in ent and ent[r][0] != o]
                     if missing or any(r not in ent for r in info["reqs"]):
                         return Violation("C14/work-without-resources", f"step {i}: work_fn of op{o} invoked while it does not own {missing} of {info['reqs']}")
+                    if o not in info["entry"]["active"]:
+                        return Violation("C14/work-without-resources", f"step {i}: work_fn of op{o} invoked while op{o} is not an active operation")
                 rets = [j for j, e in enumerate(log) if e == [4]]
                 vals = [j for j, e in enumerate(log) if e[0] in (6, 7)]
                 if vals and (not rets or vals[0] < rets[0]):
